@@ -102,7 +102,7 @@ def cover_categories(Ls, n, rng):
     value-type classes they contain (instrumented types by which special members are
     non-trivial, floating point, std::byte) and by having a VaryingSize parameter; the groups
     are visited round-robin, so that every category present gets a list before any gets two"""
-    special = (lay.TTRK, lay.TTRKC, lay.TTRKCC, lay.TTRKMC, lay.TTRKMA, lay.TTRKCA, lay.TFLT, lay.TBYTE)
+    special = (lay.TTRK, lay.TTRKC, lay.TTRKCC, lay.TTRKMC, lay.TTRKMA, lay.TTRKCA, lay.TFLT, lay.TBYTE, lay.TSW)
     groups = {}
     for L in Ls:
         key = (frozenset(p.ty for p in L if p.ty in special), lay.has_varying(L))
@@ -344,6 +344,11 @@ class ProxyFamily(Family):
             [P(l.PLAIN, l.TTRKMA, 8, 8), P(l.PLAIN, l.TUINT, 4, 4), P(l.PLAIN, l.TTRKCA, 2)],
             [P(l.FIXED, l.TTRKCA, 3), P(l.PLAIN, l.TU8, 1), P(l.FIXED, l.TTRKMA, 4, 4)],
             [P(l.PLAIN, l.TUINT, 8, 8), P(l.VARYING, l.TBLOB, 3), P(l.PLAIN, l.TTRKMA, 4, 4), P(l.PLAIN, l.TTRKCA, 4)],
+            # trivially copyable types with an ADL swap of their own: assigned bytewise, swapped through
+            # their swap (seeded change C11j: the ADL-swap detection tested rvalues)
+            [P(l.PLAIN, l.TUINT, 4), P(l.PLAIN, l.TSW, 4), P(l.FIXED, l.TSW, 2)],
+            [P(l.PLAIN, l.TSW, 8, 8), P(l.PLAIN, l.TU8, 1)],
+            [P(l.FIXED, l.TUINT, 2, 2), P(l.PLAIN, l.TSW, 3), P(l.PLAIN, l.TBLOB, 2)],
         ]
 
     def jobs(self, rng, tier):
